@@ -782,11 +782,12 @@ def match_finding(case, what):
 LEVEL_TEXT = (
     "Machine-checked proof (Coq) over the Gallina transcription of _list_decorators / _set_decorators / "
     "_dict_decorators: for every operation and every argument value the instrumented list equals the "
-    "builtin list (result, exception, contents) outside four precisely delimited self-aliasing / "
-    "non-sequence slice-assignment cases, the instrumented set equals the builtin set up to order outside "
-    "`s -= s`, the instrumented dict equals the builtin dict; the append/remove events account exactly for "
-    "the change of contents outside remove(absent), *= and |= on dicts; all lifted to arbitrary operation "
-    "histories. Each excluded region has a _refuted theorem with a concrete witness."
+    "builtin list (result, exception, contents) outside exactly one region (`c[a:b] = c`, proved exact), "
+    "the instrumented set equals the builtin set up to order outside `s -= s`, the instrumented dict equals "
+    "the builtin dict; the append/remove events account exactly for the change of contents for every set and "
+    "dict operation and for every list operation but `*=` (guard proved exact); all lifted to arbitrary "
+    "operation histories. Each excluded region has a _refuted theorem with a concrete witness; the defects "
+    "repaired by 1d9f897, 2c3a941, b1144f3, c982b6e are positive Examples and replayed witnesses."
 )
 LEVEL_NOTE = (
     "Trusted: Coq kernel; the hand transcription (source pin + exhaustive small-scope correspondence); the "
